@@ -157,6 +157,40 @@ def check(cx):
         cx.verdict(len(ws) >= 2 and bool(cmps) and all(any(wm.dominates(b, w.bb) for b in cmps) for w in ws), r3, "write-after-cap", wm.where(),
                    "writes dominated by the size test", "write_message writes a frame without the MAX_MESSAGE_SIZE test")
 
+    # ---- C20.3b the frame reader is the caller's reader; C20.3c a length prefix is the byte length ------------------------
+    r3b = cx.rule("C20.3b", "FLOW: every call of read_message hands on the reader the caller was given (a parameter or a field), never an "
+                  "adaptor built for the one frame (a BufReader created per call reads ahead into the next frame and drops those "
+                  "bytes); every u32 length prefix written by the tcp encoders is the len() of the byte/str slice whose bytes follow", floor=3)
+    for c in K.sites(p, "tcp::read_message"):
+        if c.callee != "tcp::read_message":
+            continue
+        prov = c.fn.nearest_calls(op_local(c.args[0]))
+        built = sorted(x[1] for x in prov if x[0] == "call")
+        cx.verdict(not built and any(x[0] == "param" for x in prov), r3b, "reader@" + c.fn.id, c.where(), "the caller's own reader is read",
+                   "%s reads the frame through a reader it builds itself (%s): what that adaptor buffers beyond this frame is lost "
+                   "with it, the next frame starts in the middle of the stream" % (c.fn.id, ", ".join(built) or "unknown origin"))
+    LEN_OK = ("core::slice::<impl [T]>::len", "core::str::<impl str>::len", "std::vec::Vec::<T, A>::len", "std::string::String::len")
+    n_pref = 0
+    for f in sorted(p.fns.values(), key=lambda x: x.id):
+        if not f.id.startswith("tcp::") or f.id.startswith("tcp::session") or f.root:
+            continue
+        for c in f.calls():
+            if not c.callee.endswith("<impl u32>::to_le_bytes"):
+                continue
+            # only prefixes that are followed by the bytes of a slice: look for a len()-like provenance at all
+            prov = f.nearest_calls(op_local(c.args[0]))
+            calls = sorted(x[1] for x in prov if x[0] == "call")
+            lens = [x for x in calls if x in LEN_OK]
+            counts = [x for x in calls if x.rsplit("::", 1)[-1] in ("count", "chars", "len_utf16", "capacity")]
+            if not lens and not counts:
+                continue        # a plain count field (rows, columns), not a byte-length prefix
+            n_pref += 1
+            cx.verdict(bool(lens) and not counts and len(calls) == len(lens), r3b, "prefix@%s#%d" % (f.id, n_pref), c.where(),
+                       "prefix = len() of the bytes", "%s writes a length prefix computed by %s, not the byte length of what follows: "
+                       "for non-ASCII text the reader cuts the string short and reads the rest as the next field" % (f.id, ", ".join(calls)))
+    if n_pref == 0:
+        cx.bad(r3b, "prefix:none", "", "no length-prefixed writer found in the tcp encoders")
+
     # ---- C20.4 bounded allocation ----------------------------------------------------------------------------
     r4 = cx.rule("C20.4", "FLOW(taint): in the tcp decoders no value produced by from_le_bytes reaches "
                  "Vec::with_capacity / vec! unless it passed through min() with a payload-length-derived bound or is "
